@@ -20,6 +20,7 @@ OTHER_PANICKY = ("core::slice::<impl [T]>::copy_from_slice", "core::slice::<impl
                  "core::slice::<impl [T]>::chunks_exact", "core::slice::<impl [T]>::chunks_exact_mut", "core::slice::<impl [T]>::chunks_mut",
                  "core::slice::<impl [T]>::select_nth_unstable", "core::slice::<impl [T]>::split_at", "core::slice::<impl [T]>::split_at_mut")
 ALL_VALUES = sorted({v for t in common.VARIANTS.values() for v in t})
+RUNTIME_REACH = [None]  # set of function paths reachable at run time from the API roots (callers outside it are compile-time only)
 WIDTH = {"u8": 8, "u16": 16, "u32": 32, "u64": 64, "usize": 64, "i32": 32, "i8": 8}
 
 
@@ -40,8 +41,9 @@ def _target(F):
 
 def collect(F, roots, G=None):
     _target(F)
+    RUNTIME_REACH[0] = None
     G = G or callgraph.CallGraph(F)
-    reach = G.reach(roots)
+    reach = G.reach(roots, runtime_only=True)
     sites = []
     for path in sorted(reach):
         b = G.nodes[path]
@@ -1152,6 +1154,8 @@ def preconditions(F, G, sites, envs, depth_limit=3):
     callers = {}
     for b in F.bodies:
         if not b.mir or b.kind not in ("Fn", "AssocFn", "Closure"):
+            continue
+        if RUNTIME_REACH[0] is not None and b.path not in RUNTIME_REACH[0]:
             continue
         for i, t in b.calls():
             cp = (t["callee"].get("resolved") or {}).get("path") or t["callee"].get("path")
